@@ -2,6 +2,7 @@ package rules
 
 import (
 	"go/constant"
+	"go/token"
 	"go/types"
 	"strings"
 
@@ -78,6 +79,50 @@ func varargElems(v ssa.Value) []ssa.Value {
 // static tail to its variadic parameter.
 func sliceLitPlusFV(x an.FV, stop func(*ssa.Function) bool) (elems []an.FV, tail an.FV, ok bool) {
 	x = x.Resolve(stop)
+	if phi, isPhi := x.V.(*ssa.Phi); isPhi && len(phi.Edges) == 2 {
+		// `l := []string{…}; if len(tail) > 0 { l = append(l, tail...) }`: appending nothing is skipped
+		for i, e := range phi.Edges {
+			ap, isAp := e.(*ssa.Call)
+			if !isAp || !an.IsBuiltinCall(ap, "append") || len(ap.Call.Args) != 2 || ap.Call.Args[0] != phi.Edges[1-i] {
+				continue
+			}
+			tf, towner := an.TerminalField(ap.Call.Args[1])
+			onlyWhenNonEmpty := false
+			for _, g := range an.GuardsOf(ap.Block()) {
+				bo, isBin := g.Cond.(*ssa.BinOp)
+				if !isBin {
+					continue
+				}
+				var subj ssa.Value
+				nonEmpty := false
+				if ln, isLen := an.Strip(bo.X).(*ssa.Call); isLen && an.IsBuiltinCall(ln, "len") {
+					k, isK := constInt(bo.Y)
+					subj = ln.Call.Args[0]
+					switch {
+					case !isK:
+					case bo.Op == token.GTR && k == 0, bo.Op == token.NEQ && k == 0, bo.Op == token.GEQ && k == 1:
+						nonEmpty = g.Polarity
+					case bo.Op == token.EQL && k == 0, bo.Op == token.LSS && k == 1, bo.Op == token.LEQ && k == 0:
+						nonEmpty = !g.Polarity
+					}
+				} else if isNilConst(bo.Y) {
+					subj = bo.X
+					nonEmpty = (bo.Op == token.NEQ) == g.Polarity
+				}
+				if subj == nil || !nonEmpty {
+					continue
+				}
+				sf, sowner := an.TerminalField(subj)
+				if tf != nil && sf != nil && an.SameField(tf, sf) && types.Identical(towner, sowner) {
+					onlyWhenNonEmpty = true
+				}
+			}
+			// the other edge comes straight from the test (nothing else assigned in between)
+			if onlyWhenNonEmpty && len(an.GuardsOf(ap.Block())) == len(an.GuardsOf(phi.Block()))+1 {
+				x = an.FV{V: ap, F: x.F}
+			}
+		}
+	}
 	call, isCall := x.V.(*ssa.Call)
 	if !isCall || !an.IsBuiltinCall(call, "append") || len(call.Call.Args) != 2 {
 		return nil, an.FV{}, false
@@ -199,7 +244,21 @@ func valuesFollowIn(fn *ssa.Function, m ssa.Value, sortedKeysFns map[*ssa.Functi
 			why = "looked up with elements of " + an.D().Of(ia.X) + ", not of the sorted key list of the same map"
 			return
 		}
-		for _, ref := range an.Referrers(lk) {
+		// the value looked up: the lookup itself, or the first half of its comma-ok form (whose second half is always
+		// true here: the key was taken from the key list of the same map)
+		uses := an.Referrers(lk)
+		var present ssa.Value
+		if lk.CommaOk {
+			uses = nil
+			for _, ref := range an.Referrers(lk) {
+				if ex, isEx := ref.(*ssa.Extract); isEx && ex.Index == 0 {
+					uses = append(uses, an.Referrers(ex)...)
+				} else if isEx {
+					present = ex
+				}
+			}
+		}
+		for _, ref := range uses {
 			st, ok := ref.(*ssa.Store)
 			if !ok {
 				continue
@@ -214,7 +273,23 @@ func valuesFollowIn(fn *ssa.Function, m ssa.Value, sortedKeysFns map[*ssa.Functi
 					if sl, ok := r2.(*ssa.Slice); ok {
 						for _, r3 := range an.Referrers(sl) {
 							if call, ok := r3.(*ssa.Call); ok && an.IsBuiltinCall(call, "append") && isResult(call) {
-								found = true
+								// every key's value is collected: within one pass of the loop nothing but the lookup's own
+								// presence flag decides whether the append runs
+								loop, _ := an.NaturalLoopOf(call.Block())
+								skipped := false
+								for _, g := range an.GuardsOf(call.Block()) {
+									if loop == nil || !loop[g.If.Block()] || isLoopTest(g.If, loop) {
+										continue
+									}
+									if present == nil || an.Strip(g.Cond) != present {
+										skipped = true
+									}
+								}
+								if skipped {
+									why = "collected only under a further condition: some names are left without their value"
+								} else {
+									found = true
+								}
 							}
 						}
 					}
@@ -238,6 +313,16 @@ func valuesFollowIn(fn *ssa.Function, m ssa.Value, sortedKeysFns map[*ssa.Functi
 		why = "not collected as map[key] over the sorted key list"
 	}
 	return false, why
+}
+
+// isLoopTest: the branch decides between another pass of the loop and leaving it.
+func isLoopTest(iff *ssa.If, loop map[*ssa.BasicBlock]bool) bool {
+	for _, s := range iff.Block().Succs {
+		if !loop[s] {
+			return true
+		}
+	}
+	return false
 }
 
 func c16(c *core.Ctx, r *core.Report) {
@@ -533,6 +618,22 @@ func c16(c *core.Ctx, r *core.Report) {
 				f := an.FieldOfAddr(st.Addr)
 				if f == nil || !an.SameField(f, valsField) {
 					return
+				}
+				if isNilConst(st.Val) {
+					// the explicit zero of a composite literal: the field of a freshly allocated struct, not set otherwise there
+					if fa, isFA := st.Addr.(*ssa.FieldAddr); isFA {
+						if al, isAl := fa.X.(*ssa.Alloc); isAl {
+							others := 0
+							for _, ref := range an.Referrers(al) {
+								if fa2, ok := ref.(*ssa.FieldAddr); ok && fa2 != fa && an.SameField(an.FieldOfAddr(fa2), f) {
+									others++
+								}
+							}
+							if others == 0 {
+								return
+							}
+						}
+					}
 				}
 				nStores++
 				key := core.FuncName(fn) + "#static-values"
